@@ -66,7 +66,7 @@ type kspec struct {
 	kind    int
 	variant int
 	matSeed string
-	legacy  bool // custom type URL → legacy adapter path
+	legacy  bool   // custom type URL → legacy adapter path
 	hdr     []byte // stub keys: bytes the RAW primitive itself puts in front of its outputs
 	id      uint32
 	key     key.Key // symmetric or private key
